@@ -340,7 +340,14 @@ class KernelSim(WorldBase):
             isect = self._isect_setup(s, flow)
             mask = s.get("mask", 0)
 
+            early = [bool((mask >> 47) & 1)]
+
             def hook(kind, info):
+                if early[0]:
+                    # a consumer that drains before anything was traced: its first batch is empty
+                    early[0] = False
+                    self._isect_drain(isect)
+                    self.probe("isect_empty_first_batch")
                 if kind != "loop-end" or info["rank"] != s["rank"]:
                     return
                 i = hook_n[0]
@@ -595,8 +602,13 @@ class KernelSim(WorldBase):
                 want += (tf_ref if s["model"] == "two-finger" else sa_ref)(A, B)
                 pairs.append([A, B])
         if nf == 0:
-            # no intersection was executed: there is no trace to feed the model with
+            # no intersection was executed: every batch is empty and the total must stay 0
             self.probe("isect_no_fiber")
+            if isect["err"]:
+                self.V("C19", "C19.batching", "session", f"{s['model']} model raised {isect['err']} on empty batches")
+            elif isect["obj"].getNumIntersects() != 0:
+                self.V("C19", "C19.batching", "session",
+                       f"{s['model']} model reports {isect['obj'].getNumIntersects()} although no intersection ran")
             return
         mode = "per-fiber" if s["mask"] & ((1 << max(nf, 1)) - 1) == ((1 << max(nf, 1)) - 1) else \
                ("one-shot" if s["mask"] & ((1 << max(nf, 1)) - 1) == 0 else "mixed")
@@ -638,6 +650,10 @@ class KernelSim(WorldBase):
         try:
             for t in types:
                 Metrics.trace("K", t, consumable=True)
+
+            if (mask >> 47) & 1:
+                self._isect_drain(isect)
+                self.probe("isect_empty_first_batch")
 
             def inner(j):
                 if model == "leader-follower":
@@ -702,25 +718,29 @@ class KernelSim(WorldBase):
         depth = a.get("depth", 0)
         self.kexec += 1
 
-        def build(scale):
+        def build(scale, zero_every=0):
             nest_lists = lists if depth == 0 else None
             t = Tensor(rank_ids=(["M", "K"] if depth == 0 else ["P", "M", "K"]), shape=([len(lists), 8] if depth == 0 else [2, len(lists), 8]))
             for p in range(1 if depth == 0 else 2):
                 for m, cs in enumerate(lists):
-                    for c in cs:
+                    for ci, c in enumerate(cs):
                         pt = (m, c) if depth == 0 else (p, m, c)
                         r = t.getPayloadRef(*pt)
-                        r <<= scale + c
+                        # (never a whole list of zeros: an all-default sub-fiber is an empty fiber, not a payload value)
+                        r <<= 0 if (zero_every and ci % zero_every == 1) else scale + c
             return t
         try:
             got = Compute.numSwaps(build(a["vals"]), depth, radix, lat)
             got2 = Compute.numSwaps(build(a["vals"] + 3), depth, radix, lat)
+            got3 = Compute.numSwaps(build(a["vals"], zero_every=2), depth, radix, lat)
         except Exception as e:
             self.V("C19", "C19.swaps", "swaps", f"numSwaps raised {type(e).__name__}: {str(e)[:80]}")
             return {}
         mult = 1 if depth == 0 else 2
-        if got != got2:
-            self.V("C19", "C19.swaps", "swaps", f"numSwaps depends on payload values: {got} vs {got2}")
+        if got != got2 or got != got3:
+            self.V("C19", "C19.swaps", "swaps",
+                   f"numSwaps depends on payload values: {got} vs {got2} (other values) vs {got3} (some payloads zero) "
+                   f"for lists {lists}, radix {a['radix']}, latency {lat}")
         if lat != "N":
             want = swaps_ref(lists, radix, lat) * mult
             if got != want:
